@@ -1,6 +1,7 @@
 (* Properties/C11.v - Redirect policies are enforced exactly.
    Only statements, `exact`, and Print Assumptions.  Model: Model/Authority.v, Model/Redirect.v. *)
-From ReqV Require Import Lib.Bytes Model.Authority Model.Redirect Proofs.RedirectProofs.
+From ReqV Require Import Lib.Bytes Model.Authority Model.Redirect Model.RedirectClient
+  Proofs.RedirectProofs Proofs.RedirectClientProofs.
 
 (* Host identity = URL hostname, case-insensitive, port stripped whatever its form, IPv6
    without brackets - for EVERY well-formed authority. *)
@@ -123,6 +124,85 @@ Theorem C11_headers_never_duplicated : forall ps init targets via strip s,
 Proof. exact follow_no_duplicates. Qed.
 Print Assumptions C11_headers_never_duplicated.
 
+(* ---- whose policies: clients, SetRedirectPolicy, Clone (Model/RedirectClient.v) ---- *)
+
+(* a request through client c is decided by the policy list c holds, by nothing else *)
+Theorem C11_request_uses_own_policies : forall w c cfg init targets,
+  nth_error w c = Some cfg ->
+  cstep w (ODo c init targets) = (w, Some (run_chain cfg init targets)).
+Proof. exact cstep_do_own. Qed.
+Print Assumptions C11_request_uses_own_policies.
+
+(* SetRedirectPolicy replaces (does not add to) what was configured; with no argument it is a no-op *)
+Theorem C11_last_set_replaces : forall w c ps,
+  c < length w -> ps <> [] -> nth_error (fst (cstep w (OSet c ps))) c = Some ps.
+Proof. exact cstep_set_replaces. Qed.
+Print Assumptions C11_last_set_replaces.
+
+Theorem C11_empty_set_is_noop : forall w c, cstep w (OSet c []) = (w, None).
+Proof. exact cstep_set_empty. Qed.
+Print Assumptions C11_empty_set_is_noop.
+
+(* nothing but SetRedirectPolicy on c itself changes what c holds: not SetRedirectPolicy on the
+   client it was cloned from or on its clones, not Clone, not C(), not a request *)
+Theorem C11_other_operations_leave_client_alone : forall w o c,
+  c < length w -> (forall ps, o <> OSet c ps) ->
+  nth_error (fst (cstep w o)) c = nth_error w c.
+Proof. exact cstep_frame. Qed.
+Print Assumptions C11_other_operations_leave_client_alone.
+
+(* over whole histories: after c's last non-empty SetRedirectPolicy, c holds exactly that list
+   whatever else happens afterwards *)
+Theorem C11_own_last_set_decides : forall c ps w pre post,
+  c < length (fst (crun w pre)) -> ps <> [] -> (forall qs, ~ In (OSet c qs) post) ->
+  nth_error (fst (crun w (pre ++ OSet c ps :: post))) c = Some ps.
+Proof. exact own_last_set_decides. Qed.
+Print Assumptions C11_own_last_set_decides.
+
+(* a clone starts with what its source holds at the moment of cloning and keeps it, whatever the
+   source (or anybody else) is told later, until it is itself reconfigured *)
+Theorem C11_clone_keeps_snapshot : forall w c cfg post,
+  nth_error w c = Some cfg -> (forall qs, ~ In (OSet (length w) qs) post) ->
+  nth_error (fst (crun w (OClone c :: post))) (length w) = Some cfg.
+Proof. exact clone_keeps_snapshot. Qed.
+Print Assumptions C11_clone_keeps_snapshot.
+
+(* independence, for every history: the outcomes of ALL requests through c are the same when every
+   SetRedirectPolicy and every request on the other clients is dropped (replaced by the no-op) -
+   starting from any two worlds that agree on c *)
+Theorem C11_client_independent_of_other_clients : forall c ops w1 w2,
+  length w1 = length w2 -> c < length w1 -> nth_error w1 c = nth_error w2 c ->
+  crun_of c w1 ops = crun_of c w2 (erase_foreign c ops).
+Proof. exact client_independence_gen. Qed.
+Print Assumptions C11_client_independent_of_other_clients.
+
+(* the design of seeded change b-m1 (a clone's CheckRedirect bound to the source's policy field) is
+   a different machine: witness kept checked *)
+Theorem C11_method_value_design_refuted :
+  exists ops, crun_mv ([], []) ops <> snd (crun [] ops).
+Proof. exact method_value_design_refuted. Qed.
+
+(* ---- several chains in flight through one client ---- *)
+
+(* at any moment of any schedule of CheckRedirect evaluations, chain i is where it would be had it
+   run alone for as many deliveries as the schedule gave it *)
+Theorem C11_chain_state_independent_of_other_chains : forall ps sched ks i,
+  nth_error (run_sched ps sched ks) i =
+  option_map (hop_n (count_occ Nat.eq_dec sched i) ps) (nth_error ks i).
+Proof. exact run_sched_nth. Qed.
+Print Assumptions C11_chain_state_independent_of_other_chains.
+
+(* ... and every chain the schedule lets run to its end ends exactly as run_chain says - the
+   function all the chain theorems above are about *)
+Theorem C11_interleaved_chains_end_as_alone : forall ps sched chains i init targets,
+  nth_error chains i = Some (init, targets) ->
+  length targets < count_occ Nat.eq_dec sched i ->
+  option_map chain_result
+    (nth_error (run_sched ps sched (map (fun c => chain_start (fst c) (snd c)) chains)) i) =
+  Some (fst (run_chain ps init targets), Some (snd (run_chain ps init targets))).
+Proof. exact interleaved_chains_independent. Qed.
+Print Assumptions C11_interleaved_chains_end_as_alone.
+
 (* The pinned (pre-fix) code violates the first theorem; witness kept checked. *)
 Theorem C11_pinned_hostname_refuted :
   exists a, wf_authority a = true /\
@@ -137,3 +217,13 @@ Example C11_nonvacuous :
   get_domain (bs "a.b.example.com:80") = bs "b.example.com" /\
   get_domain (bs "10.2.3.4:80") = bs "10.2.3.4".
 Proof. vm_compute. repeat split. Qed.
+
+(* non-vacuity of the client theorems: A refuses redirects, B := A.Clone(), A is opened up;
+   a request through B still stops at the first response, one through A follows *)
+Example C11_clients_nonvacuous :
+  snd (crun [] [ONew; OSet 0 [PNo]; OClone 0; OSet 0 [PMax 5];
+                ODo 1 (bs "a.test") [bs "b.test"]; ODo 0 (bs "a.test") [bs "b.test"]]) =
+  [([{| s_host := bs "a.test"; s_auth := 1; s_cookie := 1 |}], Refused);
+   ([{| s_host := bs "a.test"; s_auth := 1; s_cookie := 1 |};
+     {| s_host := bs "b.test"; s_auth := 0; s_cookie := 0 |}], Completed)].
+Proof. vm_compute. reflexivity. Qed.
